@@ -26,7 +26,7 @@ pub fn pkgname(rng: &mut Rng) -> String {
         }
     }
     let s = sprinkle(rng, &s, 15);
-    let mut s = s;
+    let mut s = crate::dict::dictify(rng, &s, 20);
     if versions::max_digit_run(&s) > 18 { return pkgname(rng); }
     // make "ends in nb<digits>" frequent
     if rng.chance(1, 3) {
@@ -64,7 +64,7 @@ pub fn pkgpath(rng: &mut Rng) -> String {
             let m = *rng.pick(&[b'/', b'.', b':']);
             s.push_str(&format!("{}{}", g, alias_of(rng, m)));
         } else {
-            s.push_str(g);
+            s.push_str(&crate::dict::dictify(rng, g, 30));
         }
     }
     if rng.chance(1, 4) { s.push('/'); }
@@ -80,6 +80,13 @@ pub fn depend(rng: &mut Rng) -> String {
             if rng.chance(4, 5) { patterns::any(rng).0 } else { "{a".to_string() }
         } else if rng.chance(3, 4) { pkgpath(rng) } else { patterns::any(rng).0 };
         let part = part.replace(':', "");
+        // a ':' inside the part (inside a bracket expression, a brace group, a version ...): the
+        // number of ':' in the whole string decides, wherever they stand
+        let part = if rng.chance(1, 12) {
+            let cs: Vec<char> = part.chars().collect();
+            let at = match cs.iter().position(|c| *c == '[' || *c == '{') { Some(k) if rng.chance(2, 3) => k + 1, _ => rng.below(cs.len() + 1) };
+            let mut q: String = cs[..at].iter().collect(); q.push(':'); q.extend(cs[at..].iter()); q
+        } else { crate::dict::dictify(rng, &part, 30) };
         parts.push(if rng.chance(1, 30) { let a = alias_of(rng, b':'); let k = part.chars().count(); let at = rng.below(k + 1); let mut q: String = part.chars().take(at).collect(); q.push(a); q.extend(part.chars().skip(at)); q } else { part });
     }
     parts.join(":")
